@@ -226,5 +226,5 @@ def run(ctx):
         # function or shared closure the arm calls (then: no verdict)
         helpers = sorted(c for c in cs if (c.startswith("closure:") or c.startswith("blots_core::") or c.startswith("<blots_core")) and not any(c == r or c.endswith(r) or (r.startswith("closure:") and c.endswith(r[8:])) for r in req)
                          and not re.search(r"::(as_\w+|reify|insert_\w+|borrow\w*|get_type|equals|compare|from|new|with_span|clone|index)$", c))
-        verdict4 = False if bad else (True if not missing else (None if helpers else False))
+        verdict4 = False if bad else (True if not missing else None)  # a hand-written equivalent of the primitive cannot be judged here
         ctx.inst("C14.R4", v, verdict4, "missing key primitives: %s; look-alikes present: %s%s" % (missing, bad, "; helpers the arm delegates to: %s" % helpers[:4] if (missing and helpers) else ""), bic.loc())
